@@ -81,7 +81,7 @@ pub fn check(sc: &Scenario, ex: &mut Exec) -> (Verdict, Option<String>) {
         match c01::measure(sc, ex, &agg_maps, &plan, &fixed, &units, &own) {
             Ok(ms) => {
                 for (mi, j) in &untraced {
-                    let mx = ms.deltas.iter().map(|(_, pm)| pm[*mi][*j]).fold(0.0, f64::max);
+                    let mx = ms.deltas.iter().map(|(_, pm)| pm[*mi][*j]).filter(|d| !d.is_nan()).fold(0.0, f64::max);
                     clip[*mi][*j] = Some(mx);
                 }
             }
@@ -132,7 +132,12 @@ pub fn check(sc: &Scenario, ex: &mut Exec) -> (Verdict, Option<String>) {
         };
         for c in cs {
             for sign in [1.0f64, -1.0] {
-                let plan = base.clone().with_agg_z(sign * c);
+                // only this map's own sites are forced: an inner DP aggregation (nested queries)
+                // must keep its neutral draws, or the pre-noise value itself would move
+                let mut plan = base.clone();
+                for col in &m.cols {
+                    plan = plan.with_site_z(col.u1_site, col.u2_site, sign * c);
+                }
                 let (rz, _) = match ex.query(&mut eng, "noise_map_z", &sql, &plan) {
                     Ok(x) => x,
                     Err(e) => return (Verdict::Skip(format!("engine_gap:{}", short(&e))), None),
